@@ -74,6 +74,8 @@ fn c04_cfg(t: Tier) -> HistCfg {
     c.w_add = 34;
     c.w_match = 28;
     c.final_drain = true;
+    c.wrap_ok = true;
+    c.boundary_share = 2;
     c
 }
 
@@ -486,6 +488,7 @@ pub fn witnesses() -> Vec<(&'static str, &'static str, History)> {
         ghost: None,
         hold: false,
         gen_start: 0,
+        wrap_ok: false,
     };
     vec![
         (
